@@ -15,6 +15,10 @@ Trace == ndJsonDeserialize("trace.ndjson")
 TNext == \/ /\ st = "pick"
             /\ \E i \in DOMAIN Trace : st' = "line" /\ vec' = [v |-> Trace[i].v, i |-> i]
          \/ /\ st = "line"
-            /\ Finish("vec", vec.v, Trace[vec.i].devs)
+            /\ Finish("trace", vec.v, Trace[vec.i].devs)
+\* The trace lines alone ...
 TSpec == Init /\ [][TNext]_vars
+\* ... or together with Migrate.tla's own enumeration in one TLC run (one JVM
+\* start, the module's constants evaluated once): what ./check runs.
+AllSpec == Init /\ [][Next \/ TNext]_vars
 =============================================================================
